@@ -95,7 +95,10 @@ def _run_one(args):
 
 def run_selftest(prop, ctx, jobs=None):
     load_variants()
-    mine = [v for v in VARIANTS if prop in v["props"]]
+    served = {rid for rid, _, _ in core.rules_for(prop)}
+    mine = [v for v in VARIANTS if prop in v["props"]
+            and (v["kind"] == "twin" or v["rule"] is None
+                 or v["rule"] in served)]
     base_idents, _ = _baseline_idents(prop, ctx)
     jobs = jobs or min(16, os.cpu_count() or 1, max(1, len(mine)))
     out = []
